@@ -2773,6 +2773,11 @@ class VM:
                 return
             if self._is_canonical_numeric(key_str):
                 return  # not a valid index: the store is ignored
+            if key_str in ("length", "byteLength", "byteOffset", "buffer"):
+                # Inherited accessors without a setter (all code is strict)
+                raise JSTypeError(
+                    f"Cannot set property {key_str} which has only a getter"
+                )
             obj.set(key_str, value)
             return
 
